@@ -48,6 +48,7 @@ import pysnark.qaptools.backend as qb
 LOG = []
 CALLS = []
 MID = []
+_RD = 1
 _ac, _pv, _pb = qb.add_constraint, qb.privval, qb.pubval
 def _lc(s): return [[int(c), v] for c, v in s.sig]
 def add_constraint(v, w, y):
@@ -153,6 +154,12 @@ def gen_script(rnd):
         lines.append("@subqap(\"%s\")" % fnames[k])
         lines.append("def f%d(%s):" % (k, ", ".join(args)))
         lines.extend(body)
+        if rnd.random() < 0.15:
+            # a sub-circuit that calls itself once while it is being traced (two calls of the same function are active at once)
+            shapes.add("self-recursive")
+            rargs = [rnd.choice(names[ar:] or names) + " + a0 * 0"] + [rnd.choice(names) for _ in range(ar - 1)]
+            lines += ["    global _RD", "    if _RD > 0:", "        _RD -= 1", "        try:", "            f%d(%s)" % (k, ", ".join(rargs)),
+                      "        finally:", "            _RD += 1"]
         if rnd.random() < 0.15:
             # an assertion-only sub-circuit: no return value
             lines.append("    (%s * %s + a0 * 0).assert_eq(%s * %s)" % (names[0], names[-1], names[-1], names[0]))
